@@ -599,13 +599,17 @@ static struct
   char *ret; int err;
 } cc;
 
+/* <unistd.h> declares crypt() with __nonnull; the library documents EINVAL
+   for NULL arguments, so call through a pointer that carries no attribute.  */
+static char *(*volatile crypt_fp) (const char *, const char *) = crypt;
+
 static void
 do_crypt_call (void)
 {
   errno = 0;
   switch (cc.entry)
     {
-    case 0: cc.ret = crypt (cc.phrase, cc.setting); break;
+    case 0: cc.ret = crypt_fp (cc.phrase, cc.setting); break;
     case 1: cc.ret = crypt_r (cc.phrase, cc.setting, cc.data); break;
     case 2: cc.ret = crypt_rn (cc.phrase, cc.setting, cc.data, cc.size); break;
     case 3: cc.ret = crypt_ra (cc.phrase, cc.setting, cc.ra_data, cc.ra_size); break;
@@ -978,7 +982,7 @@ mt_thread (void *arg)
       uint64_t t0 = now_ns ();
       if (it->kind == 0)
         {
-          if (mt_static_api) res = crypt (it->phrase, it->setting);
+          if (mt_static_api) res = crypt_fp (it->phrase, it->setting);
           else if (ep == 0) res = crypt_r (it->phrase, it->setting, cd);
           else if (ep == 1) res = crypt_rn (it->phrase, it->setting, cd, (int) sizeof *cd);
           else res = crypt_ra (it->phrase, it->setting, &ra, &rasz);
